@@ -11,6 +11,7 @@ import (
 	"context"
 	"errors"
 	"fmt"
+	"math"
 	"strings"
 	"sync"
 	"sync/atomic"
@@ -59,8 +60,10 @@ func runCase(c *vkit.Case, regress bool) {
 	r := c.R
 	rnd := c.Rand
 	// ---- parameters ----
-	maxWaits := []time.Duration{time.Millisecond, 2 * time.Millisecond, 5 * time.Millisecond, time.Hour}
-	maxWait := maxWaits[rnd.Weighted([]int{5, 3, 1, 2})]
+	// The last three never elapse within a run: 1 h, and the extremes of the type (a duration
+	// computation that overflows would make them "elapse" at once).
+	maxWaits := []time.Duration{time.Millisecond, 2 * time.Millisecond, 5 * time.Millisecond, time.Hour, time.Duration(math.MaxInt64), time.Duration(math.MaxInt64) - 300*time.Microsecond}
+	maxWait := maxWaits[rnd.Weighted([]int{10, 6, 2, 2, 1, 1})]
 	batchSize := []int{1, 2, 3, 5}[rnd.Intn(4)]
 	useFunc := rnd.Bool(0.4)
 	nItems := rnd.Range(0, 14)
@@ -70,7 +73,8 @@ func runCase(c *vkit.Case, regress bool) {
 		errAt = rnd.Intn(nItems + 1)
 	}
 	unit := maxWait
-	if maxWait == time.Hour {
+	forever := maxWait >= time.Hour
+	if forever {
 		unit = time.Millisecond
 	}
 	// arrival delays
@@ -171,9 +175,22 @@ func runCase(c *vkit.Case, regress bool) {
 	src := vkit.NewProbeStream("source", items)
 	src.HonourCtx = true
 	src.BlockAtEnd = endKind == 2
+	// The source's own error: a sentinel, or values that are easily mistaken for the library's own
+	// shutdown (the source fails by itself with context.Canceled / DeadlineExceeded, bare or wrapped).
+	srcErr := errSource
+	srcErrName := "sentinel"
 	if endKind == 1 {
+		switch rnd.Intn(6) {
+		case 0:
+			srcErr, srcErrName = context.Canceled, "context.Canceled"
+		case 1:
+			srcErr, srcErrName = fmt.Errorf("upstream gave up: %w", context.Canceled), "wraps context.Canceled"
+		case 2:
+			srcErr, srcErrName = context.DeadlineExceeded, "context.DeadlineExceeded"
+		}
 		src.FatalAt = errAt
-		src.Fatal = errSource
+		src.Fatal = srcErr
+		params["source_error"] = srcErrName
 	}
 	src.Delay = func(i int) time.Duration {
 		d := delays[i]
@@ -234,7 +251,7 @@ func runCase(c *vkit.Case, regress bool) {
 				// itself: items are still to come, and either the source will end or maxWait is
 				// short. Otherwise (never-ending source with nothing pending, or maxWait = 1h with a
 				// never-ending source) the wait could legitimately last forever.
-				canWaitLive := endKind != 2 || (received < nItems && maxWait < time.Hour)
+				canWaitLive := endKind != 2 || (received < nItems && !forever)
 				if p.ctxKind == 0 && !canWaitLive {
 					p.ctxKind, p.d = 1, 3*unit
 				}
@@ -254,6 +271,7 @@ func runCase(c *vkit.Case, regress bool) {
 				}
 				b, err := s.Next(ctx)
 				at := int64(time.Since(start))
+				ctxErr := ctx.Err() // read before cancel(): non-nil only if this call's context really ended
 				cancel()
 				mu.Lock()
 				nexts++
@@ -265,7 +283,8 @@ func runCase(c *vkit.Case, regress bool) {
 				case err == stream.End:
 					finished = "End"
 					sig.WriteString("End;")
-				case errors.Is(err, context.Canceled), errors.Is(err, context.DeadlineExceeded):
+				case ctxErr != nil && err == ctxErr:
+					// the consumer's own per-call context ended
 					gaveUp++
 					sig.WriteString("x;")
 				default:
@@ -390,7 +409,7 @@ func runCase(c *vkit.Case, regress bool) {
 		}
 	case "error":
 		r.Count("runs", "read to error", 1)
-		if endKind != 1 || !errors.Is(finalErr, errSource) {
+		if endKind != 1 || !errors.Is(finalErr, srcErr) {
 			bad("wrong-error", fmt.Sprintf("Next returned error %v; the source's outcome was %v", finalErr, params["end"]))
 			return
 		}
@@ -431,6 +450,9 @@ func runCase(c *vkit.Case, regress bool) {
 		r.Distinct(fmt.Sprintf("%v|%s", params, sig.String()))
 	}
 	r.Count("params", "maxWait "+maxWait.String(), 1)
+	if endKind == 1 {
+		r.Count("params", "source error "+srcErrName, 1)
+	}
 	if r.WantSample() && len(batches) >= 2 {
 		r.Sample(witness)
 	}
